@@ -29,7 +29,9 @@ package hook
 // is left to the runtime whenever the timer case could matter (see pick).
 
 import (
+	"fmt"
 	"reflect"
+	"sort"
 	"sync"
 	"sync/atomic"
 	"unsafe"
@@ -223,4 +225,37 @@ func SelectPick(site string, cases ...SelCase) int {
 	}
 	SelectTies.Add(1)
 	return ready[s.ch.Choose("select@"+site, len(ready))]
+}
+
+// MapKeys returns the keys of m in the order a rewritten `for k, v := range m`
+// visits them. Go starts a map iteration at a position chosen by the runtime's
+// own random state, which no seed controls; with a scheduler installed the
+// order is the sorted order, rotated by a draw from the choice tape when the
+// caller is a task whose interleaving the simulator decides (the order can then
+// matter to another task). Without a scheduler: the native order.
+func MapKeys[K comparable, V any](site string, m map[K]V) []K {
+	keys := make([]K, 0, len(m))
+	for k := range m {
+		keys = append(keys, k)
+	}
+	s := cur.Load()
+	if s == nil || len(keys) < 2 {
+		return keys
+	}
+	sort.Slice(keys, func(i, j int) bool { return fmt.Sprint(keys[i]) < fmt.Sprint(keys[j]) })
+	if s.aborting.Load() {
+		return keys
+	}
+	g := curGID()
+	if g == s.rootGID {
+		return keys
+	}
+	s.mu.Lock()
+	t := s.tasks[g]
+	s.mu.Unlock()
+	if t == nil || t.anon {
+		return keys
+	}
+	r := s.ch.Choose("maporder@"+site, len(keys))
+	return append(keys[r:], keys[:r]...)
 }
